@@ -76,4 +76,30 @@ def hcPhiComp (mpd mpc : T Rat) (mpcLim mpdLim : Rat) : List (List Bool) × List
 def applymask {α : Type} (t : T α) (m : List (List Bool)) : T α :=
   List.zipWith (fun row mrow => List.zipWith (fun x b => if b then x else none) row mrow) t m
 
+/-! ## Bridge to the cell-function tables of `Model/HcProg.lean` (additions of the depth round)
+
+`Model/HcProg.lean` interprets a `run()` body over tables `Idx → Option Val`; the functions above
+work on lists of rows.  With `Idx = Nat × Nat` (pole row, order column): -/
+
+/-- cell `(i, j)` of a list-of-rows table; NaN and "outside the table" are both `none` -/
+def cellAt {α : Type} (t : T α) (x : Nat × Nat) : Option α :=
+  ((t[x.1]?).bind (fun row => row[x.2]?)).join
+
+/-- cell `(i, j)` of a Boolean mask; outside the mask: `false` -/
+def maskAt (m : List (List Bool)) (x : Nat × Nat) : Bool :=
+  ((m[x.1]?).bind (fun row => row[x.2]?)).getD false
+
+/-- the `r × c` list-of-rows table of a cell function (inverse of `cellAt` on `r × c` tables) -/
+def gridOf {α : Type} (r c : Nat) (f : Nat × Nat → Option α) : T α :=
+  (List.range r).map fun i => (List.range c).map fun j => f (i, j)
+
+/-- the table has at most `r` rows of at most `c` cells -/
+def Fits {α : Type} (r c : Nat) (t : T α) : Prop := t.length ≤ r ∧ ∀ row ∈ t, row.length ≤ c
+
+/-- **`gen.HC_conj` as the whole-table criterion of the `run()` interpreter**: the table is a
+    cell function on an `r × c` grid; the mask at a cell is `conjMask` of the grid's list-of-rows
+    table (the function the driver runs as `hc_conj`). -/
+def conjGrid (r c : Nat) (t : Nat × Nat → Option C) (x : Nat × Nat) : Bool :=
+  conjMask (gridOf r c t) (t x)
+
 end PV.HcFn
